@@ -118,6 +118,46 @@ def rule_b(ctx):
                                                                                               len(paths)))
 
 
+def rule_b2(ctx, rule='C11.b'):
+    """Failing the pending streams is the first step of the close sequence, or is protected from the steps before it:
+    a step that raises (failing the sent-futures of queued frames can) must not be able to skip it."""
+    rep = ctx.report
+    g = ctx.repo.func('rsocket.rsocket_base:RSocketBase._on_connection_closed')
+    for cls in _socket_classes(ctx):
+        ok = True
+        why = ''
+        n = 0
+        for p in ctx.paths(g, cls, exc=(), no_inline={'stop_all_streams', '_stop_tasks', '_fail_unsent_frames',
+                                                       'on_close'}):
+            if p.outcome != 'return':
+                continue
+            n += 1
+            calls = [e for e in p.events if e.kind == 'call' and e.data.get('how') != 'external' and
+                     e.data.get('name') not in ('_log_identifier', 'logger')]
+            stops = [e for e in calls if e.data.get('name') == 'stop_all_streams']
+            if not stops:
+                ok, why = False, 'the close sequence does not fail the pending streams'
+                continue
+            before = [e for e in calls if e.seq < stops[0].seq]
+            # a preceding step is tolerated only inside a try whose handler swallows what it raises
+            unprotected = []
+            for e in before:
+                guarded = False
+                for t in walk_local(g.node):
+                    if isinstance(t, ast.Try) and any(e.node in ast.walk(b) for b in t.body) and \
+                            not any(stops[0].node in ast.walk(b) for b in t.body) and any(
+                            h.type is None or 'Exception' in ast.unparse(h.type) for h in t.handlers):
+                        guarded = True
+                if not guarded:
+                    unprotected.append(e)
+            if unprotected:
+                ok, why = False, ('%s() runs before stop_all_streams() and is not protected: if it raises, the pending '
+                                  'requests are never failed (on_close still runs, so the socket looks closed)' %
+                                  unprotected[0].data.get('name'))
+        rep.add(rule, '%s._on_connection_closed / failing the streams cannot be skipped by an earlier step' % cls.name,
+                g, ok and n > 0, why or 'stop_all_streams() is the first step of the sequence (%d paths)' % n)
+
+
 def rule_c(ctx):
     rep = ctx.report
     slots = ctx.slots
@@ -154,8 +194,11 @@ def rule_c(ctx):
                p.outcome == 'return']
         if not its:
             raise AnalysisError('C11.c: no loop iteration in stop_all_streams')
-        want_fail = h.is_subclass_of(slots.Requester)
-        want_dispose = h.is_subclass_of(slots.Disposable)
+        # by role, not by marker base class: whoever issued a request is failed; whoever holds a local producer (every
+        # responder, and both ends of a channel) is disposed
+        inter, role = m.role(h)
+        want_fail = role == 'requester'
+        want_dispose = role == 'responder' or inter == 'channel'
         ok = True
         for p in its:
             failed = any(e.kind == 'call' and e.data.get('name') == 'frame_received' and e.data.get('args') and
@@ -169,7 +212,8 @@ def rule_c(ctx):
                 '%s%s' % ('receives the synthetic ERROR' if want_fail else 'is not a requester',
                           ', is disposed' if want_dispose else '') if ok else
                 'an instance of %s (%s) is not %s on every iteration path' % (
-                    h.name, '+'.join(x for x, w in (('Requester', want_fail), ('Disposable', want_dispose)) if w),
+                    h.name, '+'.join(x for x, w in (('issues requests', want_fail),
+                                                    ('holds a producer', want_dispose)) if w),
                     ' and '.join(x for x, w in (('failed with the synthetic ERROR', want_fail),
                                                 ('disposed', want_dispose)) if w)))
     # requesters are failed through frame_received(ErrorFrame); responders' dispose() cancels the producer
@@ -606,5 +650,5 @@ def rule_plumbing(ctx):
     plumbing.rule_sender_hooks(ctx, 'C11.e')
 
 
-RULES = [('C11.a', rule_a), ('C11.b', rule_b), ('C11.c', rule_c), ('C11.d', rule_d), ('C11.e', rule_e),
+RULES = [('C11.a', rule_a), ('C11.b', rule_b), ('C11.b', rule_b2), ('C11.c', rule_c), ('C11.d', rule_d), ('C11.e', rule_e),
          ('C11.f', rule_f), ('C11.g', rule_g), ('C11.h', rule_h), ('C11.g+C11.e', rule_plumbing)]
